@@ -3,7 +3,7 @@ SO = 'ord::wallet::transaction_builder::TransactionBuilder::select_outgoing'
 TABLE = {
     (SO, 'unwrap', 'unwrap(slice::last(Deref::deref(self.unused_change_addresses)))'): {
         'reason': 'build_transaction returns Err unless there are at least two change addresses (checked by R20.4) before it calls select_outgoing; unused_change_addresses is initialised from them'},
-    (SO, 'arith', 'Add(Iterator::next(IntoIterator::into_iter(Iterator::rev(BTreeMap::iter(tmp)))).v:Some.0.0.offset,Amount::to_sat(Script::minimal_non_dust(script::deref(Address::script_pubkey(Option::unwrap(tmp))))))'): {
+    (SO, 'arith', 'Add(Iterator::next(IntoIterator::into_iter(Iterator::rev(BTreeMap::iter(self.inscriptions)))).v:Some.0.0.offset,Amount::to_sat(Script::minimal_non_dust(script::deref(Address::script_pubkey(Option::unwrap(slice::last(…)))))))'): {
         'reason': 'an inscription offset is below the value of the wallet output holding it (< 21·10^14 sats) and a dust limit is a few hundred sats',
         'requires': [r'^Eq\(self\.outgoing\.outpoint,.*\.outpoint\)==True$']},
 }
